@@ -97,6 +97,8 @@ func (d *DBFT[H]) checkPreCommit() {
 		d.changeTimer(d.timePerBlock)
 		d.checkCommit()
 	} else {
+		// Header is available now, so early Commits can finally be verified.
+		d.verifyCommitPayloadsAgainstHeader()
 		if !d.Context.WatchOnly() {
 			d.Logger.Debug("can't send commit since self preCommit not yet sent")
 		}
